@@ -75,7 +75,11 @@ impl FixtureDatabase {
         None
     }
 
-    /// Get the fixture definition at a specific line (if the line is a fixture definition)
+    /// Get the fixture definition whose function contains a specific line.
+    ///
+    /// Used to recognise a parameter that requests the fixture's own name. The only usages
+    /// recorded between the `def` line and the end of a fixture function are its
+    /// parameters, which sit on continuation lines when the signature is wrapped.
     fn get_fixture_definition_at_line(
         &self,
         file_path: &Path,
@@ -83,7 +87,7 @@ impl FixtureDatabase {
     ) -> Option<FixtureDefinition> {
         for entry in self.definitions.iter() {
             for def in entry.value().iter() {
-                if def.file_path == file_path && def.line == line {
+                if def.file_path == file_path && def.line <= line && line <= def.end_line {
                     return Some(def.clone());
                 }
             }
